@@ -165,10 +165,49 @@ def run(chk: core.Check) -> None:
     chk.rule = (
         "C01 histories, after every mutation an lxml walk checks: repeat attributes absent or >= 2, rows hold only cells, columns before rows, "
         "no row wider than the declared columns, reported size = sums of repeats; the run-length structure is compared with the Lean model; "
-        "first-row cases over 9 entry points; table names: all strings <= 3 over a 16-letter alphabet with every forbidden character + random longer; "
+        "wide histories (C01 mutators mixed with rstrip / optimize_width / transpose / spans / extend_rows / set_column_cells / live-row edits, 30 % on "
+        "tables with office-style merged cells: covered cells stored as repeated runs) under the same walk; first-row cases over 9 entry points; table names: all strings <= 3 over a 16-letter alphabet with every forbidden character + random longer; "
         "named-range names: strings <= 4 over an 11-letter alphabet. non-trivial as in C01 / name contains a forbidden or boundary character"
     )
     run_histories(chk, chk.n(700, 10000), 8, compare_runs=True, reads=True, extra=extra)
+    # every editing history: the whole-table transformations and edits through live rows too, also on tables holding
+    # merged cells the way office applications store them; decided by the lxml walk alone
+    from c02 import LIVE_REPEATED, run_wide_histories
+
+    def extra_wide(chk, t, g, case):
+        if case["ops"] and case["ops"][-1].get("op") in LIVE_REPEATED:
+            return True        # the caller rewrote a repeat attribute by hand: the listed rules speak of the table API (C02-F3 is about that)
+        return extra(chk, t, g, case)
+
+    run_wide_histories(chk, chk.n(350, 6000), extra=extra_wide)
+    # merged cells as office applications store them, under 1-3 whole-table transformations / edits
+    rng = chk.rng
+    for _ in range(chk.n(400, 6000)):
+        t, info = T.gen_merged_table(rng)
+        done = []
+        for _k in range(rng.randint(1, 3)):
+            o = rng.choice(["optimize_width", "optimize_width", "rstrip", "rstrip_aggr", "set_value", "append_row", "transpose"])
+            done.append({"op": o})
+            chk.count("merged_ops", o)
+            try:
+                if o == "optimize_width":
+                    t.optimize_width()
+                elif o == "transpose":
+                    t.transpose()
+                elif o == "set_value":
+                    done[-1]["xy"] = (rng.randrange(t.width + 2), rng.randrange(t.height + 2))
+                    t.set_value(done[-1]["xy"], "v")
+                elif o == "append_row":
+                    t.append_row(T.mk_row(T.expand_line(T.gen_line(rng, 3))))
+                else:
+                    t.rstrip(aggressive=o == "rstrip_aggr")
+            except Exception as e:  # noqa: BLE001
+                chk.fail({**info, "ops": done, "exception": repr(e)}, f"{o} raised {type(e).__name__} on a table with merged cells")
+                break
+            case = {**info, "ops": list(done)}
+            chk.case(("merged", info["merged_xml"], repr(done)), nontrivial=True)
+            if extra(chk, t, None, case) is False:
+                break
     first_row_cases(chk)
     names_part(chk)
 
